@@ -35,6 +35,7 @@ type Case struct {
 	Bytes []int    `json:"bytes"`
 	Bl    int      `json:"bl"`
 	T     []int    `json:"t"`
+	NoRe  bool     `json:"nore"` // the specification demands no re-encoding (UTCTime without seconds)
 	Class int      `json:"class"`
 	Cons  bool     `json:"cons"`
 	Tag   int64    `json:"tag"`
@@ -94,7 +95,7 @@ func valueEqual(c *Case, v der.Value) bool {
 		return true
 	case "bits":
 		return c.Bl == v.Bl && eqInts(c.Bytes, v.Bytes)
-	case "time":
+	case "time", "utc":
 		return eqInts(c.T, v.T)
 	case "hdr":
 		return c.Class == v.Class && c.Cons == v.Cons && c.Tag == v.Tag && c.Clen == v.Clen
@@ -130,6 +131,9 @@ func check(c *Case, t *der.Target) (got string, what string) {
 	}
 	if c.hasValue() && !valueEqual(c, o.Val) {
 		return "value", fmt.Sprintf("%s: decoded %+v, the specification says %+v", desc(), o.Val, *c)
+	}
+	if c.NoRe || t.NoRe {
+		return "", ""
 	}
 	if o.ReErr != "" {
 		return "reencode", fmt.Sprintf("%s: accepted but re-encoding with the same library failed: %s", desc(), o.ReErr)
@@ -262,7 +266,7 @@ func record(w *obs.Writer, kind string, raw []byte, t *der.Target) {
 		"acc": o.Acc, "n": o.N, "panic": o.Panic != "",
 		"sign": v.Sign, "mag": nz(v.Mag), "bv": v.Bv, "arcs": nz64(v.Arcs), "bytes": nz(v.Bytes), "bl": v.Bl,
 		"t": nz(v.T), "class": v.Class, "cons": v.Cons, "tag": v.Tag, "clen": v.Clen,
-		"re": der.Ints(o.Re), "reok": o.Acc && o.ReErr == "",
+		"re": der.Ints(o.Re), "reok": o.Acc && o.ReErr == "", "nore": t.NoRe,
 	}
 	w.Write(rec)
 }
@@ -308,7 +312,26 @@ func randomInput(rng *rand.Rand) (string, []byte) {
 	var kind string
 	var tag byte
 	var content []byte
-	switch rng.Intn(6) {
+	switch rng.Intn(7) {
+	case 6:
+		kind, tag = "utc", 0x17
+		yy := []int{0, 1, 49, 50, 51, 68, 69, 99, rng.Intn(100)}[rng.Intn(9)]
+		str := fmt.Sprintf("%02d%02d%02d%02d%02d", yy, 1+rng.Intn(12), 1+rng.Intn(31), rng.Intn(25), rng.Intn(61))
+		if rng.Intn(3) != 0 {
+			str += fmt.Sprintf("%02d", rng.Intn(61))
+		}
+		switch rng.Intn(4) {
+		case 0, 1:
+			str += "Z"
+		case 2:
+			str += fmt.Sprintf("%c%02d%02d", "+-"[rng.Intn(2)], rng.Intn(26), rng.Intn(62))
+		default:
+			str += []string{"", "z", "+0000", "-0000", ".5Z", "+01"}[rng.Intn(6)]
+		}
+		content = []byte(str)
+		if rng.Intn(6) == 0 {
+			content[rng.Intn(len(content))] = rbyte(rng)
+		}
 	case 0:
 		kind, tag = "int", 2
 		n := 1 + rng.Intn(12)
